@@ -18,6 +18,9 @@ mod fam_sdk;
 mod hist;
 mod hist_oracle;
 mod rng;
+mod svm;
+mod fixture;
+mod ix;
 
 use std::collections::BTreeMap;
 use std::io::Write;
